@@ -679,6 +679,55 @@ func Judge(f *Facts, got *lab.RawResponse, err error) Verdict {
 	return v
 }
 
+// JudgeAborted judges what the client read of an exchange whose backend (or terminal handler) broke off
+// after its response head and before the end of its body. The round trip of the statement cannot be
+// demanded of it - the complete body never existed on the proxy's side - and a client that is SHOWN the
+// break (the connection ends early: no terminating chunk, fewer bytes than the Content-Length it was
+// given, a gzip stream without its end) knows that it does not hold the backend's body. What the statement
+// excludes is the opposite: bytes that the client's HTTP parser reads to a proper END (the announced
+// Content-Length delivered in full, or chunked up to and including the terminating chunk), under the
+// backend's own status, that decode cleanly according to the Content-Encoding received - and are not the
+// backend's body, because that body was never there. Returns "" when nothing can be objected.
+//
+//	status     the backend's (handler's) status
+//	backendCE  the backend's own Content-Encoding ("" = none): such an entity is opaque and not decoded
+//	sent       the body bytes the backend really sent before it broke off
+//	what       how it broke off (for the message)
+func JudgeAborted(status int, backendCE string, sent []byte, what string, got *lab.RawResponse, err error) string {
+	if err != nil || got == nil || got.Status == 0 {
+		return "" // no response head at all: visibly failed
+	}
+	if got.Status != status {
+		return "" // the proxy's own answer (502, 413 ...), not the backend's response
+	}
+	if got.BodyErr != "" {
+		return "" // the message ends early by its own framing: visibly incomplete
+	}
+	if !got.Chunked && got.DeclaredCL < 0 {
+		return "" // delimited by the end of the connection: a break cannot be presented as an end mark
+	}
+	content, gotCE := got.Body, ceOf(got.Header)
+	if backendCE == "" && strings.EqualFold(gotCE, "gzip") {
+		dec, derr := gunzipAll(got.Body)
+		if derr != nil {
+			return "" // the gzip stream has no proper end: visibly incomplete to a decoding client
+		}
+		content = dec
+	}
+	framing := fmt.Sprintf("Content-Length %d delivered in full", got.DeclaredCL)
+	if got.Chunked {
+		framing = "chunked, terminating chunk included"
+	}
+	rel := "that are not even a prefix of what the backend sent"
+	if bytes.Equal(content, sent) {
+		rel = "= exactly the part the backend had sent before it broke off"
+	} else if bytes.HasPrefix(sent, content) {
+		rel = "= a prefix of the part the backend had sent"
+	}
+	return fmt.Sprintf("RT: the backend broke off mid-response (%s; %d body bytes sent), but the client received a COMPLETE, well-formed response with the backend's status %d (%s, Content-Encoding %q, %d bytes on the wire) that decodes cleanly to %d bytes %s - a truncated body is presented as the backend's body",
+		what, len(sent), got.Status, framing, gotCE, len(got.Body), len(content), rel)
+}
+
 func hint(got *lab.RawResponse, f *Facts) string {
 	if isGzipOf(got.Body, f.Body) {
 		return " - the bytes on the wire are gzip(backend body) but the headers do not say so"
